@@ -2,9 +2,9 @@
 from .. import common as C, generic as G
 from . import C17
 
-TRUSTED = C17.TRUSTED
-PERRUN = ['Char_model.v', 'C17.v']
-GEN = ('Gen_util', 'Gen_model', 'Gen_tables')
+TRUSTED = ['Coq 8.16.1 kernel + vm_compute', 'translator/tables.py (call sites, guards and assignments of solve()/solve_main()/controller as source text)', 'NumPy: astype/copy/list allocate fresh objects; np.random.* is the only access to the global generator', 'which options the user guide documents as random']
+PERRUN = ['C19.v']
+GEN = ('Gen_tables',)
 
 
 def run(ctx):
